@@ -144,6 +144,12 @@ def run(c):
                     cy[0] = {"args": cy[0]}
         cases.append({"id": i, "mode": "reset", "mounts": mounts, "cycles": cyc})
         meta.append((model, big))
+    # writable mounts whose names are prefixes of one another (as strings, not as paths)
+    for j in range(2 if c.quick() else 8):
+        m2 = ["/w", "/work", "/tmp", "/tmpdata", "/w2/x"]
+        cyc, model = gen_history(r, m2, False)
+        cases.append({"id": len(cases), "mode": "reset", "mounts": m2, "cycles": cyc})
+        meta.append((model, False))
     cases.append({"id": len(cases), "mode": "reset", "mounts": ["/w", "/tmp"], "rwbind": True,
                   "cycles": [[["regx", "/data/left-by-a-tenant", "x", "dir", "/data/d", "-", "regx", "/w/b", "-"]]]})
     meta.append((None, False))
@@ -237,6 +243,9 @@ def run(c):
     for s in [0, 1, 4096, 100000]:
         for rd in ["bytes", "dataerr", "pipe"]:
             mc.append({"mode": "memfd", "size": s, "seed": r.randint(1, 1 << 30), "reader": rd, "elf": True})
+    # large executables: whatever the size, all of it
+    for s, rd in [((128 << 20) + 4113, "bytes"), ((128 << 20) + 1, "pipe")] + ([((160 << 20), "file"), ((128 << 20), "half")] if not c.quick() else []):
+        mc.append({"mode": "memfd", "size": s, "seed": r.randint(1, 1 << 30), "reader": rd})
     for i, x in enumerate(mc):
         x["id"] = i
     mobs = c.run_harness(exe, mc, env=env, timeout=1800)
